@@ -101,7 +101,7 @@ def _adv_dataset(rng, d, regression):
 
 
 def _history(rng, cls, index, ndata, tier="quick"):
-    kinds = ["fit0", "fit1", "predict", "predict_none", "restart", "clone", "ambient", "scribble"]
+    kinds = ["fit0", "fit1", "predict", "predict_none", "restart", "clone", "ambient", "scribble", "twin"]
     if ndata > 2:
         kinds.append("fit2")
     if cls in ("ADVC", "ADVR"):
@@ -453,6 +453,8 @@ def execute(plan, ctx):
         return refs[key]
 
     est = factory(plan)
+    twin = None      # a second, independent estimator of the same class used by "another caller"
+    shadows = []     # fitted estimators left behind by clone operations: (estimator, data set, answers then)
     cloned = False
     fitted_on = None
     origin = "ctor"
@@ -614,6 +616,10 @@ def execute(plan, ctx):
             if not ok:
                 ctx.fail("C19.clone_raised", f"{cls}: sklearn.clone raised {type(ret).__name__}: {ret}", dict(sigbase, exc=type(ret).__name__))
                 return
+            if fitted_on is not None:
+                oks, sobs, _ = ctx.call(observe, plan, est, fitted_on, plan["seeds"][2], copy_probe(shared_probe(plan, fitted_on, ctx)))
+                if oks and len(shadows) < 2:
+                    shadows.append((est, fitted_on, sobs, copy_probe(shared_probe(plan, fitted_on, ctx))))
             est = ret
             cloned = True
             fitted_on = None
@@ -633,6 +639,17 @@ def execute(plan, ctx):
                     ctx.fail("C19.depends_on_caller_arrays", f"{cls}: after the caller overwrote its training arrays in place the fitted "
                              f"estimator answers differently ({first_diff(before_obs, after_obs) if oka else type(after_obs).__name__})", sigbase)
                     return
+        elif op == "twin":
+            # interleaving with another caller: an independent estimator of the same class is fitted on
+            # another data set and queried; nothing of it may leak into the estimator under test
+            if twin is None:
+                twin = factory(plan)
+            kt = (opi + 1) % len(plan["data"])
+            with ctx.clock_installed():
+                okt, _r, _s = ctx.call(do_fit, plan, twin, kt)
+            if okt:
+                ctx.call(observe, plan, twin, kt, plan["seeds"][0])
+            ctx.fault("interleaved_second_instance")
         elif op == "ambient":
             kind, val = amb.next()
             ctx.fault("ambient_rng")
@@ -646,6 +663,12 @@ def execute(plan, ctx):
                 torch.manual_seed(val)
         else:
             raise HarnessError(f"unknown op {op}")
+        for sh_est, sh_k, sh_obs, sh_probe in shadows:
+            oks, now, _ = ctx.call(observe, plan, sh_est, sh_k, plan["seeds"][2], copy_probe(sh_probe))
+            if not oks or not same(sh_obs, now, tol=0):
+                ctx.fail("C19.clone_interferes", f"{cls}: a fitted estimator that was cloned answers differently after operation {op!r} "
+                         f"on its clone / on another instance ({first_diff(sh_obs, now) if oks else type(now).__name__})", sigbase)
+                return
         ctx.event("op", i=opi, op=op, fitted_on=fitted_on, origin=origin)
     ctx.state({"cls": cls, "hist": [h[:3] for h in hist][:5], "base": plan["cfg"].get("base")})
 
